@@ -4,6 +4,7 @@ import (
 	"fmt"
 	"go/ast"
 	"go/token"
+	"go/types"
 	"strings"
 
 	"golang.org/x/tools/go/ssa"
@@ -156,6 +157,16 @@ func (lv *lvCtx) escapes(fn *ssa.Function, v ssa.Value, within map[*ssa.BasicBlo
 					pi := i
 					if cal != nil && lv.retainsParam(cal, pi, depth+1) {
 						return "kept by " + cal.Name() + "()"
+					}
+					if cc.IsInvoke() {
+						// a call through an interface of the module: every implementation in the module is a possible callee
+						if iface, ok := cc.Value.Type().Underlying().(*types.Interface); ok {
+							for _, t := range lv.c.implementers(iface, true) {
+								if m := lv.c.methodOf(t, cc.Method.Name()); m != nil && lv.retainsParam(m, pi+1, depth+1) {
+									return "kept by " + shortTypeName(t) + "." + m.Name() + "()"
+								}
+							}
+						}
 					}
 				}
 			case *ssa.Return:
